@@ -39,7 +39,7 @@ type TmplPart struct {
 	// Kind: lit | label | line | ts_nanos | ts_unix | ts_millis | upper | lower | ToUpper | ToLower |
 	// printf2 | default | trim | unix_of_label | fail_unixToTime | fail_regex |
 	// alignLeft | alignRight (N characters) | replace (Text -> Text2) | trimPrefix | trimSuffix (Text) |
-	// b64enc | if_contains (Text) | regex_wrap
+	// b64enc | if_contains (Text) | regex_wrap | regex_wrap_literal | regex_count
 	Kind  string `json:"kind"`
 	Text  string `json:"text,omitempty"`  // literal text, default value, needle
 	Text2 string `json:"text2,omitempty"` // replacement
